@@ -6,6 +6,7 @@ import (
 	"math/rand/v2"
 	"runtime"
 	"sync"
+	"sync/atomic"
 	"testing"
 
 	"github.com/platinummonkey/go-concurrency-limits/core"
@@ -153,10 +154,82 @@ func concurrentCase(idx int64, r *rand.Rand) {
 	rt.Distinct(fmt.Sprintf("conc|%+v|%d|%d|%d", spec, nG, rounds, seeds[0]))
 }
 
+// concurrentSets: several goroutines set one SettableLimit (bare or behind the wrappers) to distinct values; listeners
+// pause before recording.  At quiescence every listener holds the value EstimatedLimit reports: the explicit set that
+// was stored last is also the one delivered last.
+func concurrentSets(idx int64, r *rand.Rand) {
+	sl := limit.NewSettableLimit("c16", 1+r.IntN(50), nil)
+	var top core.Limit = sl
+	wk := []string{"bare", "bare", "traced", "windowed"}[r.IntN(4)]
+	switch wk {
+	case "traced":
+		top = limit.NewTracedLimit(sl, limit.NoopLimitLogger{})
+	case "windowed":
+		w, err := limit.NewWindowedLimit("w", 1e8, 1e8, 10, 0, sl, nil)
+		if err != nil {
+			panic(err)
+		}
+		top = w
+	}
+	type rec struct {
+		mu     sync.Mutex
+		called int
+		last   int
+	}
+	recs := make([]*rec, 1+r.IntN(3))
+	pause := []int{0, 3, 20}[r.IntN(3)]
+	for i := range recs {
+		rc := &rec{}
+		recs[i] = rc
+		top.NotifyOnChange(func(v int) {
+			for k := 0; k < pause; k++ {
+				runtime.Gosched()
+			}
+			rc.mu.Lock()
+			rc.called++
+			rc.last = v
+			rc.mu.Unlock()
+		})
+	}
+	nG := 2 + r.IntN(5)
+	rounds := 20 + r.IntN(60)
+	var wg sync.WaitGroup
+	var ready atomic.Int32
+	for g := 0; g < nG; g++ {
+		wg.Add(1)
+		go func(g int) {
+			defer wg.Done()
+			ready.Add(1)
+			for ready.Load() < int32(nG) {
+				runtime.Gosched()
+			}
+			for i := 0; i < rounds; i++ {
+				sl.SetLimit(1 + g + nG*i) // distinct over all goroutines and rounds
+			}
+		}(g)
+	}
+	wg.Wait()
+	final := top.EstimatedLimit()
+	rt.Count("concurrent_explicit_set_cases", 1)
+	for i, rc := range recs {
+		rt.Count("concurrent_listener_final_checks", 1)
+		if rc.called == 0 || rc.last != final {
+			rt.Violation("C16/settable/concurrent/last-notified-value-stale-at-quiescence", idx, rt.J{"wrapper": wk, "listener": i,
+				"last_notified": rc.last, "estimate": final, "goroutines": nG, "sets_per_goroutine": rounds, "notifications": rc.called, "listener_pause_yields": pause})
+			return
+		}
+	}
+	rt.Distinct(fmt.Sprintf("cset|%s|%d|%d|%d", wk, nG, rounds, final))
+}
+
 func TestCheck(t *testing.T) {
 	rt.Cases(10000, 400000, func(idx int64) {
 		r := rt.CaseRand(16, idx)
 		rt.Case()
+		if idx%10 == 9 {
+			concurrentSets(idx, r)
+			return
+		}
 		if idx%5 == 4 {
 			concurrentCase(idx, r)
 			return
